@@ -338,6 +338,80 @@ def np_arange(eng, args, kw):
     raise EngineError('np.arange form not modelled here')
 
 
+def _reshape(vals, sh):
+    it = iter(vals)
+
+    def mk(k):
+        if k == len(sh):
+            return next(it)
+        return [mk(k + 1) for _ in range(sh[k])]
+    return NDArr(mk(0))
+
+
+def np_prod(eng, args, kw):
+    sh = _shape_arg(args[0])
+    if sh is None or not all(isinstance(x, int) for x in sh):
+        raise EngineError('np.prod of a non-concrete tuple')
+    r = 1
+    for x in sh:
+        r *= x
+    return r
+
+
+def np_tile(eng, args, kw):
+    a, reps = args
+    reps = _shape_arg(reps)
+    if not isinstance(a, NDArr) or len(a.shape) != 1 or reps is None or len(reps) != 2 or reps[1] != 1 \
+            or not isinstance(reps[0], int):
+        raise EngineError('np.tile form')
+    return NDArr([list(a.data) for _ in range(reps[0])])
+
+
+def np_reshape(eng, args, kw):
+    a, sh = args
+    sh = _shape_arg(sh)
+    if not isinstance(a, NDArr) or sh is None or not all(isinstance(x, int) for x in sh):
+        raise EngineError('np.reshape form')
+    vals = flat(a.data)
+    n = 1
+    for x in sh:
+        n *= x
+    if n != len(vals):
+        raise PyRaise('ValueError', ('cannot reshape',))
+    return _reshape(vals, sh)
+
+
+def np_argmin(eng, args, kw):
+    a = args[0]
+    ax = kw.get('axis', args[1] if len(args) > 1 else None)
+    if not isinstance(a, NDArr) or ax != 0:
+        raise EngineError('np.argmin form')
+    AXIOMS_USED.add('np.argmin(bool array, axis=0) = index of the first False along axis 0, 0 when there is none')
+    rows = a.data
+    n = len(rows)
+
+    def pick(pos_rows):
+        # pos_rows: the n entries at one trailing position
+        if isinstance(pos_rows[0], list):
+            return [pick([r[k] for r in pos_rows]) for k in range(len(pos_rows[0]))]
+        r = 0
+        for k in range(n - 1, -1, -1):
+            t = eng.truth(pos_rows[k])
+            if not (isinstance(t, SV) or isinstance(t, bool)):
+                raise EngineError('np.argmin of non-boolean entries')
+            r = ite(b_not(t), k, r)
+        return r
+    res = pick(rows)
+    return NDArr(res) if isinstance(res, list) else res
+
+
+def np_hypot(eng, args, kw):
+    a, b = args
+    if isinstance(a, NDArr) or isinstance(b, NDArr):
+        return eng.nd_binary(lambda x, y: np_hypot(eng, [x, y], {}), a, b)
+    return sqrt_real(eng, r_add(r_mul(a, a), r_mul(b, b)))
+
+
 def np_dot(eng, args, kw):
     return eng.matmul(args[0], args[1])
 
@@ -384,6 +458,11 @@ NP = Namespace('np', {
     'sum': Builtin('np.sum', np_sum), 'argmax': Builtin('np.argmax', np_argmax),
     'arange': Builtin('np.arange', np_arange), 'dot': Builtin('np.dot', np_dot),
     'logical_not': Builtin('np.logical_not', np_logical_not),
+    'hypot': Builtin('np.hypot', np_hypot),
+    'prod': Builtin('np.prod', np_prod),
+    'tile': Builtin('np.tile', np_tile),
+    'reshape': Builtin('np.reshape', np_reshape),
+    'argmin': Builtin('np.argmin', np_argmin),
     'linalg': NP_LINALG,
     'newaxis': None,
 })
@@ -807,6 +886,15 @@ def slist_method(eng, lst, name):
             r = b_sorted(e, [lst], k)
             lst.chunks = r.chunks
         return Builtin('list.sort', f)
+    if name == 'insert':
+        def f(e, a, k):
+            if not lst.is_concrete() or not isinstance(a[0], int):
+                raise EngineError('insert on symbolic list / at symbolic position')
+            items = lst.concrete()
+            items.insert(a[0], a[1])
+            lst.chunks = [('conc', items)]
+            e.note_write(('list', lst))
+        return Builtin('list.insert', f)
     if name == 'flat':
         return lst
     raise EngineError('list.%s' % name)
@@ -1117,6 +1205,22 @@ def nd_getitem(eng, arr, idx):
             r = NDArr(mapnd(lambda v: v, arr.data))
             r.masked_by = idx
             return r
+        if len(arr.shape) == 1 and all(is_intlike(v) for v in flat(idx.data)):
+            # integer (fancy) index into a vector: elementwise selection
+            n = len(arr.data)
+
+            def sel(j):
+                if isinstance(j, int):
+                    return arr.data[norm_index(eng, j, n)]
+                if eng.decide(r_cmp('>=', j, n)):
+                    raise PyRaise('IndexError', ('fancy index',))
+                if eng.decide(r_cmp('<', j, 0)):
+                    raise EngineError('negative fancy index')
+                r = arr.data[n - 1]
+                for k in range(n - 2, -1, -1):
+                    r = ite(r_cmp('==', j, k), arr.data[k], r)
+                return r
+            return NDArr(mapnd(sel, idx.data))
         raise EngineError('fancy indexing of a small array')
     if isinstance(idx, tuple):
         cur = arr
